@@ -32,6 +32,9 @@
 #include <dirent.h>
 #include <sys/wait.h>
 #include <sys/stat.h>
+#include <poll.h>
+#include <signal.h>
+#include <cerrno>
 
 //---------------------------------------------------------------------------
 // operator new with a size cap
@@ -52,6 +55,7 @@ typedef std::complex<double> Z; typedef std::complex<float> ZF;
 // per-process temp dir
 //---------------------------------------------------------------------------
 static std::string TMP; static pid_t MAIN_PID = 0;
+static int CHILD_TIMEOUT_MS = 10000;   // per faulted read (each takes well under a millisecond); --child-timeout-ms=N
 static long STRIDE = 1;   // --stride=k runs every k-th case only (valgrind sample)
 static bool sel(const char *sub, long idx) { return (STRIDE <= 1 || idx % STRIDE == 0) && vf::selected(sub, idx); }
 static void cleanup_tmp() {
@@ -299,12 +303,17 @@ template <class F> std::vector<Outcome> isolated(size_t count, F run) {
             for (size_t k = start; k < count; ++k) { Outcome o = run(k); if (write(fd[1], &o, sizeof o) != (ssize_t)sizeof o) _exit(7); }
             _exit(0);
         }
-        close(fd[1]); size_t got = 0; Outcome o;
-        for (;;) { size_t have = 0; ssize_t k; while (have < sizeof o && (k = read(fd[0], (char*)&o + have, sizeof o - have)) > 0) have += k; if (have < sizeof o) break; if (start + got < count) out[start + got] = o; ++got; }
+        close(fd[1]); size_t got = 0; Outcome o; bool hung = false;
+        for (;;) { size_t have = 0; ssize_t k = 0;
+            while (have < sizeof o) { pollfd pf; pf.fd = fd[0]; pf.events = POLLIN; pf.revents = 0; int pr = poll(&pf, 1, CHILD_TIMEOUT_MS);
+                if (pr == 0) { hung = true; kill(pid, SIGKILL); break; }          // a read that does not return (e.g. after heap corruption) counts as a crash
+                if (pr < 0) { if (errno == EINTR) continue; perror("poll"); exit(3); }
+                k = read(fd[0], (char*)&o + have, sizeof o - have); if (k <= 0) break; have += k; }
+            if (have < sizeof o) break; if (start + got < count) out[start + got] = o; ++got; }
         close(fd[0]); int st = 0; waitpid(pid, &st, 0);
         if (start + got >= count) break;
         // the read number start+got killed the child
-        std::string info = WIFSIGNALED(st) ? "signal " + std::to_string(WTERMSIG(st)) : "exit " + std::to_string(WEXITSTATUS(st));
+        std::string info = hung ? "no return within the watchdog (killed)" : WIFSIGNALED(st) ? "signal " + std::to_string(WTERMSIG(st)) : "exit " + std::to_string(WEXITSTATUS(st));
         std::string err = get_file(errf); size_t p = err.find("ERROR: AddressSanitizer: ");
         if (p != std::string::npos) { size_t q = err.find_first_of(" \n", p + 25); info += " asan:" + err.substr(p + 25, q - p - 25); }
         else if ((p = err.find("runtime error: ")) != std::string::npos) info += " ubsan:" + err.substr(p + 15, 60);
@@ -552,7 +561,7 @@ static void sub_must_throw() {
 
 int main(int argc, char **argv) {
     vf::init(argc, argv);
-    MAIN_PID = getpid(); STRIDE = vf::opt_int("stride", 1);
+    MAIN_PID = getpid(); STRIDE = vf::opt_int("stride", 1); CHILD_TIMEOUT_MS = (int)vf::opt_int("child-timeout-ms", 10000);
     { char tmpl[] = "/tmp/vf-c19-XXXXXX"; char *d = mkdtemp(tmpl); if (!d) { perror("mkdtemp"); return 3; } TMP = d; atexit(cleanup_tmp); }
     if (vf::sub_enabled("mm_roundtrip")) sub_mm_roundtrip();
     if (vf::sub_enabled("mm_symmetric")) sub_mm_symmetric();
